@@ -16,9 +16,7 @@ def run(ctx):
     ctx.proof_gate(theorems=THEOREMS)
     if not ctx.build_driver():
         return
-    h = _v2.match_stream(ctx, 'determinism')
-    if not h:
-        return
+    _v2.match_stream(ctx, 'determinism')   # the oracle below runs even when the model-stream harness failed
     d = ctx.rundir
     nproc = 2 if ctx.tier == 'quick' else 12
     # separate processes (fresh map seeds), run side by side; process 0 writes into the run directory
